@@ -80,6 +80,27 @@ func init() {
 		return nil
 	}
 
+	// slices.Reverse(s): s[i] becomes what s[len(s)-1-i] was; the length and everything beyond it are unchanged.
+	externals["slices.Reverse"] = func(f *Frame, ns *nodeState, x *ssa.Call, fn *ssa.Function, args []Val) []Val {
+		ex := f.ex
+		vc := ex.vc
+		if args[0].Origin == nil {
+			ex.fail("slices.Reverse of a slice that is not held in a tracked location")
+		}
+		s := ex.viewOf(ns.st, args[0])
+		old := slArr(s)
+		n := slLen(s)
+		ex.callSeq["slices.Reverse"]++
+		na := vc.Declare(fmt.Sprintf("%sreversed_arr!%d", f.prefix, ex.callSeq["slices.Reverse"]), old.Sort)
+		j := Atom("q_j", SInt)
+		in := And(leT(IntLit64(0, SInt), j), ltT(j, n))
+		mirror := Term{S: fmt.Sprintf("(- (- %s 1) q_j)", n.S), Sort: SInt}
+		ax := Ite(in, Eq(Select(na, j), Select(old, mirror)), Eq(Select(na, j), Select(old, j)))
+		vc.Assume(Term{S: fmt.Sprintf("(forall ((q_j Int)) (! %s :pattern (%s)))", ax.S, Select(na, j).S), Sort: SBool}, "slices.Reverse: contents")
+		ex.storeLV(ns.st, args[0].Origin, WithField(s, 0, na))
+		return nil
+	}
+
 	// strconv.Atoi: an uninterpreted partial function of the string.
 	externals["strconv.Atoi"] = func(f *Frame, ns *nodeState, x *ssa.Call, fn *ssa.Function, args []Val) []Val {
 		ex := f.ex
